@@ -402,6 +402,59 @@ Proof.
   unfold plan_of. cbn [flat_map]. intros [H|[b H]]; rewrite H; reflexivity.
 Qed.
 
+(* the complete decision table for removal without a successor, over commands and items: a snapshot
+   file is removed although no new snapshot was saved for it exactly when
+   (a) it could not be loaded, the command is repair snapshots with --forget (not --dry-run) and its id
+       was named on the command line, or
+   (b) it was loaded, and rewrite / repair produced an empty result (null tree) that is not kept, not dry-run *)
+Lemma item_remove_only_iff c it :
+  item_action c it = ARemoveOnly <->
+  exists o, c = CRewrite o /\ r_dry o = false /\
+    ((i_unreadable it = true /\ r_repair o = true /\ r_forget o = true /\ i_named it = true) \/
+     (i_unreadable it = false /\ i_fres it = FTree 0 /\ r_keep_empty o = false)).
+Proof.
+  unfold item_action. destruct (i_unreadable it) eqn:Eu.
+  - destruct c as [st ad rm|o].
+    + split; [discriminate | intros [o [H _]]; discriminate].
+    + unfold unreadable_action. split.
+      * destruct (r_repair o) eqn:E1, (r_forget o) eqn:E2, (i_named it) eqn:E3; cbn [andb]; try discriminate.
+        destruct (r_dry o) eqn:E4; [discriminate|]. intros _. exists o. repeat split; auto.
+      * intros [o' [Hc [Hd [[_ [H1 [H2 H3]]]|[H _]]]]]; [|discriminate].
+        inversion Hc; subst o'. rewrite H1, H2, H3, Hd. reflexivity.
+  - destruct c as [st ad rm|o].
+    + split.
+      * destruct (change_tags (i_old it) (i_sn it) st ad rm); discriminate.
+      * intros [o [H _]]; discriminate.
+    + rewrite rewrite_remove_only_iff. split.
+      * intros [H1 [H2 H3]]. exists o. repeat split; auto.
+      * intros [o' [Hc [Hd [[H _]|[_ [H1 H2]]]]]]; [discriminate|]. inversion Hc; subst o'. auto.
+Qed.
+
+(* hence every removal in a model run is either such an explicit removal or the removal of a snapshot
+   whose successor has been saved: plan entries without successor come from ARemoveOnly only *)
+Lemma plan_entry_without_successor c its p :
+  In p (plan_of c its) -> p_new p = None ->
+  exists it, In it its /\ p_old p = i_old it /\ item_action c it = ARemoveOnly.
+Proof.
+  unfold plan_of. intros Hin Hn. apply in_flat_map in Hin as [it [Hit Hp]].
+  exists it. split; [exact Hit|].
+  destruct (item_action c it) as [|b| |sn' f] eqn:E; cbn in Hp; try contradiction.
+  - destruct Hp as [<-|[]]. split; reflexivity.
+  - destruct Hp as [<-|[]]. cbn in Hn. discriminate.
+Qed.
+
+(* an unreadable snapshot is never replaced and, unless explicitly requested, never touched *)
+Lemma unreadable_untouched c it :
+  i_unreadable it = true -> item_action c it <> ARemoveOnly -> plan_of c [it] = [].
+Proof.
+  intros Hu Hn. unfold plan_of. cbn [flat_map]. rewrite app_nil_r.
+  unfold item_action in *. rewrite Hu in *.
+  destruct c as [st ad rm|o]; [reflexivity|].
+  unfold unreadable_action in *.
+  destruct (r_repair o && r_forget o && i_named it); [|reflexivity].
+  destruct (r_dry o); [reflexivity | contradiction].
+Qed.
+
 (* chains of tag edits: Original stays the id of the first snapshot *)
 Definition tag_step (cur : N * snap) (st : list bytes * list bytes * list bytes * N) : N * snap :=
   let '(set, add, rm, newid) := st in
@@ -460,7 +513,7 @@ Lemma original_first_in_chain_refuted :
 Proof.
   exists 1%N, (mkSnap None 5 [] [] 0), 2%N, (mkSnap (Some 1%N) 5 [[97%N]] [] 0),
          (mkSnap (Some 2%N) 7 [[97%N]] [] 0),
-         (mkR false true false [] false [] None true).
+         (mkR false true false [] false [] None true false).
   vm_compute. repeat split; discriminate.
 Qed.
 
